@@ -65,15 +65,17 @@ impl CachedPlan {
     /// Return true if a set of input and output nodes matches those used to
     /// create the plan.
     pub fn matches(&self, inputs: &[NodeId], outputs: &[NodeId]) -> bool {
-        let input_match = inputs.len() == self.inputs.len()
-            && inputs
-                .iter()
-                .all(|node_id| self.inputs.binary_search(node_id).is_ok());
-        let output_match = outputs.len() == self.outputs.len()
-            && outputs
-                .iter()
-                .all(|node_id| self.outputs.binary_search(node_id).is_ok());
-        input_match && output_match
+        // The cached IDs are sorted and unique. A request with the same
+        // number of IDs only matches if it contains no duplicates, otherwise
+        // it must go through planning, which rejects duplicate IDs.
+        fn ids_match(cached: &[NodeId], ids: &[NodeId]) -> bool {
+            ids.len() == cached.len()
+                && ids
+                    .iter()
+                    .all(|node_id| cached.binary_search(node_id).is_ok())
+                && first_duplicate_by(ids, |x, y| x == y).is_none()
+        }
+        ids_match(&self.inputs, inputs) && ids_match(&self.outputs, outputs)
     }
 
     /// Return the IDs of the sequence of operators to run.
